@@ -39,6 +39,17 @@ def run(tier, v):
     cov["guard_necessity"] = table
     if table["md5_r"] != "NoSilentCorruption":
         raise vlib.Infra("non-vacuity: without the receiver's digest compare the model should violate NoSilentCorruption, got %s" % table["md5_r"])
+    # the resume hash exchange under a lossy / doubling ack direction (ResumeFault.tla): with the step check of
+    # pipelineRecvHashAck a completed transfer ends with the source's bytes; without it (the code before
+    # /repo c89a7df) the model must violate FinalEqualsSrc -- the counterexample the real runs below found
+    rf = vlib.tlc("ResumeFault", "ResumeFault_check.cfg", timeout=1800, heap="8g")
+    if not rf["ok"]:
+        raise vlib.Infra("ResumeFault (step check on) violates %s on the design level\n%s" % (rf["violated"], rf["out"][-3000:]))
+    rn = vlib.tlc("ResumeFault", "ResumeFault_nocheck.cfg", timeout=1800, heap="8g")
+    cov["resume_under_ack_faults"] = {"with_step_check": {"states": rf["distinct"], "holds": True},
+                                      "without_step_check_violates": rn["violated"]}
+    if rn["violated"] != "FinalEqualsSrc":
+        raise vlib.Infra("non-vacuity: without the step check ResumeFault should violate FinalEqualsSrc, got %s" % rn["violated"])
     h = vlib.build_harness(["e2e", "c02"])
     out = os.path.join(vlib.scratch(), "c02")
     params = {"shards": 192, "per_message": 3, "thorough": False} if quick else \
